@@ -37,6 +37,7 @@
 import BMV.Proofs.Bond
 import BMV.Proofs.Kpn
 import BMV.Proofs.Bm
+import BMV.Proofs.BmRtlBond
 import BMV.Props.C10
 namespace BMV.Props.C02
 open BMV BMV.Topology BMV.Bond BMV.Bm
@@ -227,6 +228,93 @@ theorem stream_eq_partial (m : Machine) (spec : EnvSpec) (hI : IsaRefines m spec
 theorem stream_eq_full_of_refinements
     (h : ∀ m spec, MachineOk m → IsaRefines m spec ∧ RtlRefines m spec) : stream_eq_full :=
   fun m spec hm _ n k r hr => stream_eq_partial m spec (h m spec hm).1 (h m spec hm).2 n k r hr
+
+/-! ### both worlds, bond by bond, are C04's handshake model
+
+  `BMV.Hs` (C04) is the valid/received protocol of ONE bond under an adversarial schedule, proved
+  exactly-once and deadlock-free in both worlds.  The theorems below show that a whole machine is
+  nothing else, bond by bond: one tick of `Bm.isaStep` (the model of `VM.Step`, with its twelve
+  movement loops) and one clock of `Bm.rtlCycle` (the processors composed through the emitted
+  netlist), looked at through one processor-to-processor bond, ARE one `Hs.Isa.step` / `Hs.Rtl.step`,
+  the schedule being read off the processors' pcs (an agent "wants" the bond in the tick in which the
+  instruction it executes is its `r2owa` / `i2rw` on that port; busy otherwise).  This is the
+  projection that C04's harness checks dynamically on the real VM and on the emitted Verilog,
+  proved for every machine, program and external stimulus. -/
+
+theorem machineOk_wf {m : Machine} (h : MachineOk m) : MachineWF m := ⟨h.1, h.2.1, h.2.2.1, h.2.2.2⟩
+
+/-- `VM.Step` is a synchronous product: every processor takes one `Isa.step` on its own state in
+    which only the three port arrays were rewritten — input `k` shows the data/valid registers its
+    bond's driver had at the end of the previous tick, output `o` the conjunction of its consumers'
+    recv — and the internal arrays agree with the processors again afterwards -/
+theorem isa_step_is_product (m : Machine) (hwf : WF m.topo) (s : BmState) (e : EnvIn) (s' : BmState)
+    (hs : isaStep m (setEnv s e) = some s') :
+    Coherent m.topo s' ∧
+    ∀ (p : Nat) v, s.procs[p]? = some v → ∃ a prog v1 v', m.archs[p]? = some a ∧ m.progs[p]? = some prog ∧
+      Isa.step a prog v1 = some v' ∧ s'.procs[p]? = some v' ∧ SameButPorts v v1 ∧
+      (∀ k i, m.topo.iin[i]? = some ⟨2, p, k⟩ → k < v.inputs.length → k < v.inValid.length →
+        v1.inputs[k]? = some ((preIi m.topo (setEnv s e)).iiRegs.getD i 0) ∧
+        v1.inValid[k]? = some ((preIi m.topo (setEnv s e)).iiValid.getD i false)) ∧
+      (∀ o j, m.topo.iout[j]? = some ⟨3, p, o⟩ → o < v.outRecv.length →
+        v1.outRecv[o]? = some (recvOf m.topo.links (preRecvArr m.topo (setEnv s e)) j)) := by
+  obtain ⟨hco, _, hget⟩ := isaStep_spec hwf hs
+  refine ⟨hco, fun p v hv => ?_⟩
+  obtain ⟨a, prog, v1, v', ha, hp, h1, hst, hv'⟩ := hget p v hv
+  obtain ⟨v1', h1', hsb, hin, hout⟩ := preMove_proc hwf (setEnv s e) (p := p) (v := v) hv
+  rw [h1] at h1'; cases h1'
+  exact ⟨a, prog, v1, v', ha, hp, hst, hv', hsb, hin, hout⟩
+
+/-- **simulator world**: one machine tick, seen through a processor-to-processor bond, is one step
+    of C04's `Hs.Isa` under the schedule read off the pcs -/
+theorem isa_bond_projects (m : Machine) (hm : MachineOk m) (j q o : Nat) (hb : ProcBond m j q o)
+    (s : BmState) (e : EnvIn) (s' : BmState) (hok : StateOk m s) (hstep : isaStep m (setEnv s e) = some s')
+    (hs : Hs.Isa.St) (hrel : BondRel m j q o s hs) :
+    StateOk m s' ∧ BondRel m j q o s' (Hs.Isa.step hs (bondSched m j q o s)) :=
+  ⟨step_ok (machineOk_wf hm) hstep hok,
+   Bm.isa_bond_projects (machineOk_wf hm) hb hok.len hok.sized hok.coh hstep hrel⟩
+
+/-- … hence every run of the closed loop machine + environment (any value streams, any stall
+    pattern) projects onto a run of `Hs.Isa` from its initial state -/
+theorem isa_bond_run_projects (m : Machine) (hm : MachineOk m) (j q o : Nat) (hb : ProcBond m j q o)
+    (spec : EnvSpec) (n : Nat) (r : BmState × EnvSt × Bool)
+    (hr : runIsa m spec n (Bm.init m, envInit spec m.topo.inputs m.topo.outputs, false) = some r) :
+    ∃ schs, schs.length = n ∧
+      BondRel m j q o r.1 (Hs.Isa.run (Hs.Isa.init (consumerSlots m.topo.links j).length) schs) := by
+  obtain ⟨es, hl, hrun⟩ := runIsa_is_runStim m spec n _ r hr
+  obtain ⟨schs, hl', _, hrel⟩ := Bm.isa_bond_run_projects (machineOk_wf hm) hb es _ r.1 _ (init_ok m) (init_rel m j q o) hrun
+  exact ⟨schs, by rw [hl', hl], hrel⟩
+
+/-- … and inherits C04's invariant, read on the machine's own registers: on every
+    processor-to-processor bond, in every reachable state, a consumer's deferred `waitRecvI2rw` is
+    pending exactly while its `InputsRecv` is up, and while the producer's `OutputsValid` is low the
+    consumers' `InputsRecv` are all up or all down -/
+theorem isa_bond_invariant (m : Machine) (hm : MachineOk m) (j q o : Nat) (hb : ProcBond m j q o)
+    (es : List EnvIn) (s' : BmState) (hrun : runStim m es (Bm.init m) = some s') :
+    (∀ i ∈ consumerSlots m.topo.links j,
+      (slotPort m.topo i ∈ (procOf s' (slotProc m.topo i)).deferred ↔
+        (procOf s' (slotProc m.topo i)).inRecv.getD (slotPort m.topo i) false = true)) ∧
+    ((procOf s' q).outValid.getD o false = false →
+      (∀ i ∈ consumerSlots m.topo.links j, (procOf s' (slotProc m.topo i)).inRecv.getD (slotPort m.topo i) false = true) ∨
+      (∀ i ∈ consumerSlots m.topo.links j, (procOf s' (slotProc m.topo i)).inRecv.getD (slotPort m.topo i) false = false)) :=
+  Bm.isa_bond_invariant (machineOk_wf hm) hb es s' hrun
+
+/-- **hardware world**: one clock of the composition, seen through a processor-to-processor bond, is
+    one step of C04's `Hs.Rtl` (machines whose only IO opcodes are the handshake ones) -/
+theorem rtl_bond_projects (m : Machine) (hm : MachineOk m) (hho : HandshakeOnly m) (j q o : Nat)
+    (hb : RtlProcBond m j q o) (h : HwState) (e : EnvIn) (hok : HwOk m h) (hs : Hs.Rtl.St)
+    (hrel : RtlBondRel m j q o h hs) :
+    HwOk m (rtlCycle m h e) ∧ RtlBondRel m j q o (rtlCycle m h e) (Hs.Rtl.step hs (rtlBondSched m j q o h)) :=
+  ⟨rtlCycle_ok e (machineOk_wf hm) hok, Bm.rtl_bond_projects (machineOk_wf hm) hho hb e hok hrel⟩
+
+theorem rtl_bond_run_projects (m : Machine) (hm : MachineOk m) (hho : HandshakeOnly m) (j q o : Nat)
+    (hb : RtlProcBond m j q o) (spec : EnvSpec) (n : Nat) :
+    ∃ schs, schs.length = n ∧
+      RtlBondRel m j q o (runRtl m spec n (hwInit m, envInit spec m.topo.inputs m.topo.outputs, false)).1
+        (Hs.Rtl.run (Hs.Rtl.init (Bond.consumers m.topo j).length) schs) := by
+  obtain ⟨es, hl, hrun⟩ := runRtl_is_runHw m spec n (hwInit m, envInit spec m.topo.inputs m.topo.outputs, false)
+  obtain ⟨schs, hl', _, hrel⟩ := Bm.rtl_bond_run_projects (machineOk_wf hm) hho hb es _ _ (hwInit_ok m) (hwInit_rel m j q o)
+  rw [hrun]
+  exact ⟨schs, by rw [hl', hl], hrel⟩
 
 /-! ### non-vacuity -/
 
